@@ -133,11 +133,11 @@ def main():
                 "demo_patched_last_line": r.get("demo_patched_tail"), "tests_on_patched": r.get("tests", "not run in this pass"),
                 "check_exit": ck.get("exit"), "check_lines": ck.get("lines", [])[:3],
                 "caught": ck.get("exit") == 1,
-                "detection": "VIOLATION (exit 1)" if ck.get("exit") == 1 else ("no verdict (exit 2, ANALYSIS-ERROR: shape outside the recognised idioms)" if ck.get("exit") == 2 else "missed (exit 0)"),
+                "detection": "VIOLATION (exit 1)" if ck.get("exit") == 1 else ("no verdict (undecided instances; the registered command exits 0 with NO-VERDICT lines, the tools run with VERIF_STRICT=1 where that is exit 2)" if ck.get("exit") == 2 else "missed (exit 0)"),
             }
             if refactor:
                 m["confirmed"].pop("caught")
-                m["confirmed"]["detection"] = {0: "silent (exit 0)", 2: "no verdict (exit 2)", 1: "FALSE ALARM (exit 1)"}.get(ck.get("exit"), str(ck.get("exit")))
+                m["confirmed"]["detection"] = {0: "silent (exit 0)", 2: "no verdict (undecided instances listed; registered command exits 0, strict mode 2)", 1: "FALSE ALARM (exit 1)"}.get(ck.get("exit"), str(ck.get("exit")))
             json.dump(m, open(mp, "w"), indent=2)
 
 
